@@ -50,6 +50,7 @@ pub fn c06_mutations(_req: &J) -> J {
         m!("drop_tx", |b: &mut Block| b.transactions.clear());
         m!("drop_action", |b: &mut Block| b.proposer_action = None);
         m!("change_action", |b: &mut Block| b.proposer_action = Some(ProposerAction { fee_multiplier_delta: 3, reward_dest: Address(HashVal([8u8; 32])) }));
+        m!("add_resigned_copy", |b: &mut Block| { let mut t = b.transactions.iter().next().unwrap().clone(); t.sigs = vec![vec![0x78u8].into()]; b.transactions.insert(t); });
         m!("change_tx", |b: &mut Block| { let t = b.transactions.iter().next().unwrap().clone(); b.transactions.clear(); let mut t2 = t; t2.data = vec![1u8].into(); b.transactions.insert(t2); });
         for (name, b) in muts {
             if parent.apply_block(&b).is_ok() {
